@@ -82,11 +82,9 @@ class C20(Prop):
                         continue
                     ctx.fail("indegree", "most-linked(%r) reports indegree %r for %r, %d distinct pages link to it"
                              % (w, g["indegree"], p, indeg[p]), case)
-            if "K1" in ctx.known:
-                # ranking is done on the reported figures: a page nobody links to competes with indegree 1
-                for p in elig:
-                    if indeg[p] == 0:
-                        eff[p] = 1
+            # omitted pages compete with their TRUE indegree: under K1 a page nobody links to is ranked as if it had 1, which can
+            # only tie with (never beat) a listed page of indegree >= 1, so no extra allowance is needed - and none is made, so
+            # that a tree in which K1 has been repaired (zeros reported as 0) raises no alarm either.
             degs = [g["indegree"] for g in got]
             if degs != sorted(degs, reverse=True):
                 ctx.fail("order", "most-linked(%r) is not in non-increasing order of indegree: %r" % (w, degs), case)
